@@ -263,6 +263,10 @@ def main(replay=None):
                     wmis += 1
                     ck.violation("save %s wrote beyond the limit" % nm, "file holds %d bytes with a limit of %d" % (size, k), dict(kind="write", wcases=[c], meta=[[kind, fmt, n, k, total]], impl=[i]))
                 if k >= 0 and size == int(m.split()[1]): wexact += 1
+                elif k >= 0 and exp_ok == got_ok:
+                    wmis += 1
+                    ck.violation("save %s: file size differs from the stream model" % nm, "%s(%d).save(\"wf_out.%s\") with %s left %d bytes, the capacity-limited stream model says %s" % (KN[kind], n, FM[fmt], fault, size, m.split()[1]),
+                                 dict(kind="write", wcases=[c], meta=[[kind, fmt, n, k, total]], wmodel=[wmodel[wcases.index(c)]], impl=[i]))
         # Matlab (.mat through matio/HDF5): not a stream writer; observed separately, one case
         rc, mo_, err = core.run_harness(hb, ["c18 4 1 3 40 -1"], wd, tag="wm")
         if mo_ and mo_[0].split()[0] == "0":
